@@ -124,7 +124,8 @@ class PolyKernel(nn.Module):
         super().__init__()
         self.c = (c1, c2, c3)
 
-    def forward(self, x):
+    def forward(self, input):
+        x = input
         c1, c2, c3 = self.c
         return c1 * x + c2 * (x * x) + c3 * (x * x * x)
 
@@ -136,8 +137,8 @@ class LinKernel(nn.Module):
         super().__init__()
         self.c = c
 
-    def forward(self, x):
-        return self.c * x
+    def forward(self, input):
+        return self.c * input
 
 
 def build_kernel(spec):
@@ -1539,37 +1540,140 @@ def pub_state(obj):
     return out
 
 
-def apply_obj(which, obj, tensors, nograd):
-    def go():
-        if which == "kernel":
-            return (obj(tensors[0]),)
-        return tuple(obj(R=tensors[0], J=tensors[1]))
-    if nograd:
-        with torch.no_grad():
-            return go()
-    return go()
+GMODES = ["plain", "no_grad", "enable_grad", "req_R", "req_J", "req_both", "graph", "inference"]
+
+
+def apply_obj(which, obj, tensors, gmode="plain", kw=True):
+    """one call of a kernel / corrector under a grad mode; returns (outputs, raised_in_inference)"""
+    import contextlib
+    tensors = tuple(tensors)
+    marked = []
+    if gmode in ("req_R", "req_both", "graph") or (gmode == "req_J" and which == "kernel"):
+        marked.append(0)
+    if gmode in ("req_J", "req_both") and which != "kernel":
+        marked.append(1)
+    ts = list(tensors)
+    for i in marked:
+        if ts[i].is_floating_point():
+            if gmode == "graph":
+                ts[i] = ts[i].clone().requires_grad_(True) * 1.0          # a non-leaf inside an autograd graph
+            elif ts[i].is_leaf and not ts[i].requires_grad:
+                ts[i].requires_grad_(True)
+    try:
+        with contextlib.ExitStack() as stack:
+            if gmode in ("no_grad", "enable_grad"):
+                stack.enter_context(torch.no_grad())
+            if gmode == "enable_grad":
+                stack.enter_context(torch.enable_grad())          # re-enabled inside an ambient no_grad
+            if gmode == "inference":
+                stack.enter_context(torch.inference_mode())
+            if which == "kernel":
+                out = (obj(input=ts[0]),) if kw else (obj(ts[0]),)
+            elif kw:
+                out = tuple(obj(R=ts[0], J=ts[1]))
+            else:
+                out = tuple(obj(ts[0], ts[1]))
+    finally:
+        for i in marked:
+            if gmode != "graph" and tensors[i].is_leaf and tensors[i].requires_grad:
+                tensors[i].requires_grad_(False)
+    return out
 
 
 def hfail(ctx, case, what):
     ctx.fail(case, what)
 
 
+def make_copy(obj, how):
+    import copy
+    import pickle
+    if how == "deepcopy":
+        return copy.deepcopy(obj), how
+    if how == "copy":
+        return copy.copy(obj), how
+    try:
+        return pickle.loads(pickle.dumps(obj)), how
+    except Exception:
+        return copy.deepcopy(obj), "pickle-unsupported"      # FastTriggs holds a lambda: not picklable (observation, notes)
+
+
+def overlaps_internally(t):
+    return t.numel() > 1 and any(st == 0 and sz > 1 for st, sz in zip(t.stride(), t.shape))
+
+
 def check_history(ctx: Ctx, case, lines=None, metas=None):
-    which, spec = case["which"], case["spec"]
-    kobj = build_kernel(spec)
-    obj = kobj if which == "kernel" else build_corrector(which, kobj)
-    st0, kst0 = pub_state(obj), pub_state(kobj)
+    """see the header of this section; hardening pass 2: several objects (sharing kernels, copies of each other) interleaved
+    in one history, grad modes, keyword / positional calls, Parameter inputs, failing calls in between (atomicity),
+    outputs overwritten in place by the caller"""
+    kspecs = case.get("kernels", [case.get("spec")])
+    odefs = case.get("objects", [{"which": case.get("which"), "kernel": 0}])
+    kobjs = [build_kernel(sp) for sp in kspecs]
+    objs = [None] * len(odefs)
+
+    def get_obj(i):
+        if objs[i] is None:
+            od = odefs[i]
+            if "copy_of" in od:
+                src = get_obj(od["copy_of"])
+                o, how = make_copy(src["obj"], od["how"])
+                ctx.count(f"history.copy.{how}")
+                ko = o if src["which"] == "kernel" else (getattr(o, "kernel", None) or src["kobj"])
+                objs[i] = {"obj": o, "kobj": ko, "which": src["which"], "spec": src["spec"]}
+            else:
+                ko = kobjs[od["kernel"]]
+                o = ko if od["which"] == "kernel" else build_corrector(od["which"], ko)
+                objs[i] = {"obj": o, "kobj": ko, "which": od["which"], "spec": kspecs[od["kernel"]]}
+            objs[i]["st0"], objs[i]["kst0"] = pub_state(objs[i]["obj"]), pub_state(objs[i]["kobj"])
+        return objs[i]
+
+    for i, od in enumerate(odefs):
+        if "copy_of" not in od:
+            get_obj(i)
     rng = random.Random(case["data_seed"])
     held_alias = False
     held = None            # caller-held tensors of the previous call (for the in-place / stale-read calls)
+    held_key = None
     for ci, call in enumerate(case["calls"]):
         cc = {**clean(case), "call": ci}
+        O = get_obj(call.get("obj", 0))
+        which, spec, obj, kobj = O["which"], O["spec"], O["obj"], O["kobj"]
         dtn = call["dtype"]
         eps = common.EPS[dtn]
+        gmode = call.get("gmode", "no_grad" if call.get("nograd") else "plain")
+        kwm = call.get("kw", True)
         ref_in = history_call_data(which, spec, call)
         layout = call["layout"]
+        fresh_k = build_kernel(spec)
+        fresh = fresh_k if which == "kernel" else build_corrector(which, fresh_k)
+        # ---- a deliberately failing call in between: must raise and leave everything as it was (atomicity)
+        if call.get("fail"):
+            bad = [t.clone() for t in ref_in]
+            expect = True
+            if which == "kernel":
+                if bad[0].numel() == 0:
+                    continue
+                flat = bad[0].reshape(-1)
+                flat[rng.randrange(flat.numel())] = -abs(float(own_scale(spec))) * 0.3 - 1e-3
+            elif call["fail"] == "badJ" and bad[1].shape[0] > 1:
+                bad[1] = torch.cat([bad[1], bad[1][:1]])
+            else:
+                bad[0] = bad[0].tolist()           # not a tensor at all
+            try:
+                apply_obj(which, obj, bad, "plain", kwm)
+                raised = False
+            except Exception:
+                raised = True
+            ctx.count(f"history.failing-call.{'raised' if raised else 'accepted'}")
+            if which == "kernel" and not raised:
+                ctx.fail(cc, f"negative-accepted: {spec['kind']}{spec['p']} accepts a tensor with a negative element in the middle of a history")
+                return
+            if pub_state(obj) != O["st0"] or pub_state(kobj) != O["kst0"] or set(vars(obj)) != set(vars(obj)):
+                ctx.fail(cc, f"history-atomic: a failing call changed public attributes of the {which}/{spec['kind']} object")
+                return
+            continue
         try:
-            if layout == "inplace" and held is not None and not held_alias and all(h.shape == r.shape and h.dtype == r.dtype for h, r in zip(held, ref_in)):
+            key = (which, tuple(tuple(t.shape) for t in ref_in), dtn)
+            if layout == "inplace" and held is not None and not held_alias and held_key == key:
                 # the caller updates the tensors it still holds, in place, to the new values (three different in-place routes)
                 for h, r in zip(held, ref_in):
                     if h.numel():
@@ -1583,25 +1687,41 @@ def check_history(ctx: Ctx, case, lines=None, metas=None):
             else:
                 pairs = [lay_out(t, layout, rng) for t in ref_in]
                 views, bases = tuple(p[0] for p in pairs), [p[1] for p in pairs]
-            before = [b.clone() for b in bases]
-            out = apply_obj(which, obj, views, call["nograd"])
-            fresh_k = build_kernel(spec)
-            fresh = fresh_k if which == "kernel" else build_corrector(which, fresh_k)
-            ref = apply_obj(which, fresh, tuple(t.clone() for t in ref_in), False)
+            if call.get("ptype") == "parameter" and layout not in ("alias", "inplace"):
+                views = tuple(nn.Parameter(v, requires_grad=bool(ci % 2)) if v.is_floating_point() else v for v in views)
+            before = [b.detach().clone() for b in bases]
+            ref = apply_obj(which, fresh, tuple(t.clone() for t in ref_in), "plain", True)
         except Exception as e:
-            hfail(ctx, cc, f"history-raises: {which}({spec['kind']}) call {ci} (layout {layout}, dtype {dtn}, shapes "
-                         f"{[tuple(t.shape) for t in ref_in]}) raises {type(e).__name__}: {str(e)[:120]}")
+            hfail(ctx, cc, f"history-raises: preparing / fresh {which}({spec['kind']}) call {ci} raises {type(e).__name__}: {str(e)[:120]}")
+            held = None
+            continue
+        try:
+            out = apply_obj(which, obj, views, gmode, kwm)
+        except Exception as e:
+            if gmode == "inference" and which != "kernel":
+                # FastTriggs documents that it refuses inference mode; Triggs fails there too: a refusal is legal, but atomic
+                ctx.count(f"history.inference-refused.{which}")
+                if pub_state(obj) != O["st0"] or pub_state(kobj) != O["kst0"]:
+                    ctx.fail(cc, f"history-atomic: the refused inference-mode call changed public attributes of the {which} object")
+                    return
+                held = None
+                continue
+            hfail(ctx, cc, f"history-raises: {which}({spec['kind']}) call {ci} (layout {layout}, dtype {dtn}, grad mode {gmode}, "
+                         f"{'keyword' if kwm else 'positional'}, shapes {[tuple(t.shape) for t in ref_in]}) raises {type(e).__name__}: {str(e)[:120]}")
             held = None
             continue            # the object lives on: later calls of the history are still checked
-        held = views
+        held = tuple(v.detach() if isinstance(v, nn.Parameter) else v for v in views)
+        held_key = key
         held_alias = layout == "alias" and which != "kernel"
+        if gmode == "inference":
+            held = None
         names = ["y"] if which == "kernel" else ["R'", "J'"]
         # purity, bit for bit, including the storage outside a view
         for b, b0 in zip(bases, before):
-            if not torch.equal(torch.nan_to_num(b, nan=1.5), torch.nan_to_num(b0, nan=1.5)):
+            if not torch.equal(torch.nan_to_num(b.detach(), nan=1.5), torch.nan_to_num(b0, nan=1.5)):
                 ctx.fail(cc, f"history-mutates: {which}({spec['kind']}) call {ci} (layout {layout}) changed the caller's storage")
                 return
-        # same as a fresh object on contiguous copies (a strided reduction may round |R_i|^2 differently: conditioning amp)
+        # same VALUES as a fresh object on plain contiguous copies, whatever the grad mode / argument type / call syntax
         ampc = 1.0
         if which != "kernel" and ref_in[0].numel():
             ampc = max(item_amp(spec, float(x)) for x in ref_in[0].double().square().sum(-1).flatten().tolist())
@@ -1614,21 +1734,40 @@ def check_history(ctx: Ctx, case, lines=None, metas=None):
                 extra = 16 * eps * r.detach().double().abs().amax() * 4          # rank-one part: relative to the item scale
             if not close_to(o, r, eps * ampc, extra if nm == "J'" else None):
                 dd = (o.detach().double() - r.detach().double()).abs().max().item() if tuple(o.shape) == tuple(r.shape) and o.numel() else float("nan")
-                ctx.fail(cc, f"history-fresh: {which}({spec['kind']}{spec['p']}) call {ci} on a reused object / layout {layout} / dtype {dtn}: {nm} "
-                             f"(shape {tuple(o.shape)} {o.dtype}) differs from a fresh object on contiguous copies (shape {tuple(r.shape)} {r.dtype}, max |diff| {dd:.3e})")
+                ctx.fail(cc, f"history-fresh: {which}({spec['kind']}{spec['p']}) call {ci} on object {call.get('obj', 0)} (reused / layout {layout} / dtype {dtn} / "
+                             f"grad mode {gmode} / {'keyword' if kwm else 'positional'} / {call.get('ptype', 'tensor')}): {nm} (shape {tuple(o.shape)} {o.dtype}) "
+                             f"differs from a fresh object on plain contiguous copies (shape {tuple(r.shape)} {r.dtype}, max |diff| {dd:.3e})")
                 return
             if o.numel() and vin.numel() and o.untyped_storage().data_ptr() == vin.untyped_storage().data_ptr():
                 ctx.fail(cc, f"history-alias: {which} call {ci}: output {nm} shares storage with the caller's input")
                 return
-        # public attributes
-        if pub_state(obj) != st0 or pub_state(kobj) != kst0:
-            ctx.fail(cc, f"history-state: public attributes of the {which}/{spec['kind']} object changed during call {ci}: "
-                         f"{ {k: v for k, v in pub_state(obj).items() if st0.get(k) != v} } { {k: v for k, v in pub_state(kobj).items() if kst0.get(k) != v} }")
+            if overlaps_internally(o):
+                ctx.fail(cc, f"history-overlap: {which} call {ci}: output {nm} overlaps itself (strides {o.stride()} for shape {tuple(o.shape)})")
+                return
+        if len(out) == 2 and out[0].numel() and out[1].numel() and out[0].untyped_storage().data_ptr() == out[1].untyped_storage().data_ptr():
+            ctx.fail(cc, f"history-overlap: {which} call {ci}: R' and J' share storage")
             return
+        # public attributes (of this object and of every other object of the history: no cross-talk)
+        for oi, Oo in enumerate(objs):
+            if Oo is not None and (pub_state(Oo["obj"]) != Oo["st0"] or pub_state(Oo["kobj"]) != Oo["kst0"]):
+                ctx.fail(cc, f"history-state: public attributes of object {oi} ({Oo['which']}/{Oo['spec']['kind']}) changed during call {ci} on object {call.get('obj', 0)}")
+                return
+        out_vals = tuple(o.detach().clone() for o in out)
+        if call.get("mutate_out") and gmode != "inference":
+            # the caller owns the results: overwriting them in place must not reach the inputs, the module or a later call
+            with torch.no_grad():
+                for o in out:
+                    if o.numel():
+                        o.detach().mul_(0).sub_(123.0)
+            for b, b0 in zip(bases, before):
+                if not torch.equal(torch.nan_to_num(b.detach(), nan=1.5), torch.nan_to_num(b0, nan=1.5)):
+                    ctx.fail(cc, f"history-alias: overwriting the outputs of {which} call {ci} in place changed the caller's inputs")
+                    return
+        out = out_vals
         # item alone == item in the batch
         try:
             if which == "kernel":
-                flat_in, flat_out = ref_in[0].reshape(-1), out[0].detach().reshape(-1)
+                flat_in, flat_out = ref_in[0].reshape(-1), out[0].reshape(-1)
                 for i in sorted({0, flat_in.numel() // 2, flat_in.numel() - 1}) if flat_in.numel() else []:
                     alone = fresh(flat_in[i:i + 1].clone())
                     if not close_to(alone.reshape(()), flat_out[i], eps):
@@ -1637,7 +1776,7 @@ def check_history(ctx: Ctx, case, lines=None, metas=None):
             else:
                 N, d, p = int(math.prod(call["batch"])), ref_in[0].shape[-1], ref_in[1].shape[-1]
                 Rn, Jn = ref_in[0].reshape(N, d), ref_in[1].reshape(N, d, p)
-                Ro, Jo = out[0].detach().reshape(N, d), out[1].detach().reshape(N, d, p)
+                Ro, Jo = out[0].reshape(N, d), out[1].reshape(N, d, p)
                 for i in sorted({0, N // 2, N - 1}) if N else []:
                     ra, ja = fresh(R=Rn[i:i + 1].clone(), J=Jn[i].clone())
                     ex = 16 * eps * Jo[i].double().abs().amax() * 4 if which == "triggs" else None
@@ -1651,17 +1790,17 @@ def check_history(ctx: Ctx, case, lines=None, metas=None):
         # the laws and the model on this call
         if which != "kernel":
             N = int(math.prod(call["batch"]))
-            sub = {**cc, "dtype": dtn, "batch": call["batch"], "d": ref_in[0].shape[-1], "p": ref_in[1].shape[-1]}
+            sub = {**cc, "which": which, "spec": spec, "dtype": dtn, "batch": call["batch"], "d": ref_in[0].shape[-1], "p": ref_in[1].shape[-1]}
             if N and bool(torch.isfinite(out[0]).all()) and bool(torch.isfinite(out[1]).all()) and not (spec["kind"] == "poly" and not poly_admissible_x(spec, ref_in[0])):
-                msk = corrector_oracles(ctx, sub, ref_in[0], ref_in[1], out[0].detach(), out[1].detach())
+                msk = corrector_oracles(ctx, sub, ref_in[0], ref_in[1], out[0], out[1])
                 if lines is not None and msk is not None:
                     lines.append(corrector_line(sub, ref_in[0], ref_in[1]))
-                    metas.append((clean(sub) | {"_mask": [bool(m) for m in msk]}, ref_in[0], ref_in[1], out[0].detach(), out[1].detach()))
+                    metas.append((clean(sub) | {"_mask": [bool(m) for m in msk]}, ref_in[0], ref_in[1], out[0], out[1]))
             elif N and not (bool(torch.isfinite(out[0]).all()) and bool(torch.isfinite(out[1]).all())):
                 ctx.fail(cc, f"corrector-finite: {which}({spec['kind']}{spec['p']}) call {ci} returns non-finite values")
                 return
         elif ref_in[0].numel() and lines is not None:
-            sub = {**cc, "dtype": dtn, "shape": call["shape"]}
+            sub = {**cc, "spec": spec, "dtype": dtn, "shape": call["shape"]}
             lines.append(kernel_line(sub, ref_in[0]))
             metas.append((sub, ref_in[0], out[0]))
 
@@ -1678,29 +1817,62 @@ def poly_admissible_x(spec, R):
     return True
 
 
-def gen_history_case(rng, which, spec, ncalls=6):
+def gen_history_case(rng, which, spec, ncalls=6, objects=None, kernels=None):
+    """`objects` / `kernels`: several objects in one history (see check_history); calls then pick an object at random"""
     calls = []
     prev = None
+    nobj = len(objects) if objects else 1
+
+    def which_of(oi):
+        if not objects:
+            return which
+        od = objects[oi]
+        while "copy_of" in od:
+            od = objects[od["copy_of"]]
+        return od["which"]
+
     for ci in range(ncalls):
+        oi = rng.randrange(nobj)
+        w = which_of(oi)
         layout = LAYOUTS[(ci + rng.randrange(len(LAYOUTS))) % len(LAYOUTS)] if ci else "contig"
-        if which == "kernel" and layout == "alias":
+        if w == "kernel" and layout == "alias":
             layout = "strided"
-        call = {"dtype": rng.choice(["float64", "float32"]), "nograd": rng.random() < 0.5, "layout": layout,
-                "data_seed": rng.randrange(1 << 30), "zero": rng.random() < 0.5}
-        if layout == "inplace" and prev is not None:
+        call = {"obj": oi, "dtype": rng.choice(["float64", "float32"]), "layout": layout, "data_seed": rng.randrange(1 << 30),
+                "zero": rng.random() < 0.5, "gmode": GMODES[(ci * 3 + rng.randrange(len(GMODES))) % len(GMODES)] if rng.random() < 0.8 else "plain",
+                "kw": rng.random() < 0.6, "ptype": "parameter" if rng.random() < 0.2 else "tensor", "mutate_out": rng.random() < 0.5}
+        if ci and rng.random() < 0.15:
+            call["fail"] = rng.choice(["badJ", "badtype"])
+        if layout == "inplace" and prev is not None and which_of(prev["obj"]) == w:
             for k in ("dtype", "shape", "batch", "d", "p"):          # same tensors, new values
                 if k in prev:
                     call[k] = prev[k]
-        elif which == "kernel":
+        elif w == "kernel":
             call["shape"] = [rng.choice([0, 1, 2, 3, 5]) for _ in range(rng.randint(0, 3))]
         else:
             call["batch"] = [rng.choice([0, 1, 2, 3, 4]) if rng.random() < 0.12 else rng.choice([1, 2, 3, 4]) for _ in range(rng.randint(0, 3))]
             call["d"], call["p"] = rng.randint(1, 6), rng.randint(1, 5)
+            if rng.random() < 0.15:                 # special sizes: N = d = p
+                k = rng.choice([1, 2, 3, 5])
+                call["batch"], call["d"], call["p"] = [k], k, k
             if layout == "alias":
                 call["d"], call["p"] = 1, 1
         calls.append(call)
-        prev = call
-    return {"stream": "history", "which": which, "spec": spec, "calls": calls, "data_seed": rng.randrange(1 << 30)}
+        if "fail" not in call:
+            prev = call
+    case = {"stream": "history", "which": which, "spec": spec, "calls": calls, "data_seed": rng.randrange(1 << 30)}
+    if objects:
+        case["objects"], case["kernels"] = objects, kernels
+    return case
+
+
+def multi_objects(rng, kspecs):
+    """FastTriggs and Triggs sharing one kernel object with the bare kernel, a second kernel of another kind, and copies
+    (deepcopy / copy / pickle round trip) of the correctors — all used interleaved in one history"""
+    objects = [{"which": "fast", "kernel": 0}, {"which": "triggs", "kernel": 0}, {"which": "kernel", "kernel": 0},
+               {"which": "triggs", "kernel": 1}, {"which": "fast", "kernel": 1}]
+    for how in ("deepcopy", "copy", "pickle"):
+        objects.append({"copy_of": rng.randrange(5), "how": how})
+    return objects
 
 
 def run_history(ctx: Ctx, cases):
@@ -1708,11 +1880,14 @@ def run_history(ctx: Ctx, cases):
     for case in cases:
         n0 = len(lines)
         guard(ctx, case, lambda: check_history(ctx, case, lines, metas))
-        ctx.note_case(("history", case["which"], case["spec"]["kind"], tuple(c["layout"] for c in case["calls"]), case["data_seed"] % 5), True)
-        ctx.count(f"history.{case['which']}.{case['spec']['kind']}")
+        ctx.note_case(("history", case["which"], case["spec"]["kind"], len(case.get("objects", [0])), tuple(c["layout"] for c in case["calls"]),
+                       tuple(c.get("gmode", "") for c in case["calls"]), case["data_seed"] % 5), True)
+        ctx.count(f"history.{'multi' if 'objects' in case else case['which']}.{case['spec']['kind']}")
         for c in case["calls"]:
             ctx.count(f"history.layout.{c['layout']}")
             ctx.count(f"history.dtype.{c['dtype']}")
+            ctx.count(f"history.gmode.{c.get('gmode', 'no_grad' if c.get('nograd') else 'plain')}")
+            ctx.count(f"history.call-syntax.{'keyword' if c.get('kw', True) else 'positional'}")
         ctx.count("history.calls-to-model", len(lines) - n0)
     reps = ctx.driver.run(lines)
     for rep, meta in zip(reps, metas):
@@ -1939,6 +2114,10 @@ def gen_history_cases(ctx, rng, scale=1.0):
             kind = rng.choice(BUILTIN + (["poly"] if which != "kernel" else []))
             spec = gen_spec(rng, kind) if kind != "poly" else {"kind": "poly", "p": [rng.choice([1.0, 0.4]), rng.choice([0.0, 0.2, 1.0]), rng.choice([0.0, 0.05])]}
             out.append(gen_history_case(rng, which, spec, ncalls=rng.randint(4, 7)))
+    for i in range(max(1, int(ctx.pick(8, 60) * scale))):
+        k0, k1 = rng.sample(BUILTIN, 2)
+        kspecs = [gen_spec(rng, k0), gen_spec(rng, k1)]
+        out.append(gen_history_case(rng, "fast", kspecs[0], ncalls=rng.randint(8, 14), objects=multi_objects(rng, kspecs), kernels=kspecs))
     return out
 
 
